@@ -500,6 +500,41 @@ pub fn lib_gradients(net: &Network, obj: &objective::Function, x: &Tensor, targe
     })
 }
 
+/// Like `lib_gradients`, but back-propagates a given output gradient `g0` instead of the objective's.
+pub fn lib_gradients_g0(net: &Network, x: &Tensor, g0: &Tensor) -> Result<Vec<(PRef, Tensor)>, String> {
+    struct Frozen<'a>(&'a Tensor);
+    let f = Frozen(g0);
+    catch(|| {
+        let (pre, act, maxp, fbs) = net.forward(x);
+        let g = if act.last().unwrap().shape == f.0.shape { f.0.clone() } else { f.0.clone().reshape(act.last().unwrap().shape.clone()) };
+        let (wg, bg) = net.verif_backward(g, &pre, &act, &maxp, fbs);
+        let n = net.layers.len();
+        let mut out = Vec::new();
+        for (i, l) in net.layers.iter().enumerate() {
+            let ri = n - 1 - i;
+            match l {
+                Layer::Feedback(fb) => {
+                    let wgs = wg[ri].unnested();
+                    let bgs = bg[ri].as_ref().unwrap().unnestedoptional();
+                    let m = fb.layers.len();
+                    for (j, il) in fb.layers.iter().enumerate() {
+                        let rj = m - 1 - j;
+                        for (k, t) in grad_tensors_for_layer(il, &wgs[rj], &bgs[rj]).into_iter().enumerate() {
+                            out.push((PRef { layer: i, inner: Some(j), tensor: k }, t));
+                        }
+                    }
+                }
+                other => {
+                    for (k, t) in grad_tensors_for_layer(other, &wg[ri], &bg[ri]).into_iter().enumerate() {
+                        out.push((PRef { layer: i, inner: None, tensor: k }, t));
+                    }
+                }
+            }
+        }
+        out
+    })
+}
+
 // ---------------------------------------------------------------------------------------------
 // Generators (construction, not rejection)
 
